@@ -67,6 +67,12 @@ func runC18(r *R) {
 	if t.Choose(4) == 0 {
 		reauthAt = t.Choose(n)
 	}
+	// optionally a second ENABLE in the middle (RFC 5161: its ENABLED response lists only what it newly enabled,
+	// possibly nothing; what was enabled before stays enabled)
+	enableAgainAt, enableAgainWhat := -1, t.Choose(2)
+	if t.Choose(4) == 0 {
+		enableAgainAt = t.Choose(n)
+	}
 	var ops []c02op
 	selected := false
 	for i := 0; i < n; i++ {
@@ -118,6 +124,7 @@ func runC18(r *R) {
 	var srv *scriptSrv
 	var authOff, enabledOff int64 = -1, -1 // offsets in the client->server stream at which the server state changed
 	var unauthOff, reauthOff int64 = -1, -1 // UNAUTHENTICATE received; LOGIN received after it
+	var utf8Off, utf8SentOff int64 = -1, -1 // UTF8=ACCEPT enabled (client stream offset); its ENABLED response sent (server stream offset)
 	var enabledSentOff int64 = -1          // offset in the server->client stream after the ENABLED response
 	var srvPipe int
 	r.Sim(cfg, func() {
@@ -154,6 +161,7 @@ func runC18(r *R) {
 				srv.send("* OK ready")
 			}
 			authed := false
+			srvEnabled := map[string]bool{}
 			for {
 				c, ok := srv.readCommand()
 				if !ok {
@@ -171,6 +179,7 @@ func runC18(r *R) {
 					srv.send("* CAPABILITY "+caps.line(), c.Tag+" OK done")
 				case "UNAUTHENTICATE":
 					authed = false
+					srvEnabled = map[string]bool{}
 					if unauthOff < 0 {
 						unauthOff = int64(len(srv.all) - len(srv.buf))
 					}
@@ -192,16 +201,23 @@ func runC18(r *R) {
 					var en []string
 					for _, a := range c.Args {
 						up := strings.ToUpper(a.S)
-						if (up == "UTF8=ACCEPT" && caps.utf8) || (up == "IMAP4REV2" && caps.rev2) {
+						if ((up == "UTF8=ACCEPT" && caps.utf8) || (up == "IMAP4REV2" && caps.rev2)) && !srvEnabled[up] {
+							srvEnabled[up] = true
 							en = append(en, up)
 							if enabledOff < 0 {
 								enabledOff = int64(len(srv.all) - len(srv.buf))
+							}
+							if up == "UTF8=ACCEPT" && utf8Off < 0 {
+								utf8Off = int64(len(srv.all) - len(srv.buf))
 							}
 						}
 					}
 					srv.send("* ENABLED "+strings.Join(en, " "), c.Tag+" OK enabled")
 					if len(en) > 0 && enabledSentOff < 0 {
 						enabledSentOff = int64(srv.sent.Len())
+					}
+					if utf8Off >= 0 && utf8SentOff < 0 {
+						utf8SentOff = int64(srv.sent.Len())
 					}
 				case "LOGOUT":
 					srv.send("* BYE bye", c.Tag+" OK bye")
@@ -232,6 +248,14 @@ func runC18(r *R) {
 				c.Enable(imap.CapIMAP4rev2).Wait()
 			}
 			for oi, o := range ops {
+				if oi == enableAgainAt {
+					r.Probe("second_enable")
+					if enableAgainWhat == 0 {
+						c.Enable(imap.CapUTF8Accept).Wait()
+					} else {
+						c.Enable(imap.CapIMAP4rev2).Wait()
+					}
+				}
 				if oi == reauthAt {
 					r.Probe("unauthenticate_then_login")
 					if err := c.Unauthenticate().Wait(); err != nil && !isIMAPStatusErr(err) {
@@ -258,7 +282,7 @@ func runC18(r *R) {
 		return
 	}
 	r.CheckLiveness(false)
-	c18Judge(r, cli, srv, pre, post, authOff, enabledOff, enabledSentOff, srvPipe, unauthOff, reauthOff)
+	c18Judge(r, cli, srv, pre, post, authOff, enabledOff, enabledSentOff, srvPipe, unauthOff, reauthOff, utf8Off, utf8SentOff)
 	if len(r.viol) > 0 {
 		r.Tracef("pre-auth caps: %s | post-auth caps: %s | greeting caps=%v enable=%d", pre.line(), post.line(), greetCaps, enableWhat)
 		r.Tracef("client->server: %q", clipStr(string(cli.Written()), 2500))
@@ -266,7 +290,7 @@ func runC18(r *R) {
 	}
 }
 
-func c18Judge(r *R, cli *simnet.Conn, srv *scriptSrv, pre, post c18caps, authOff, enabledOff, enabledSentOff int64, srvPipe int, unauthOff, reauthOff int64) {
+func c18Judge(r *R, cli *simnet.Conn, srv *scriptSrv, pre, post c18caps, authOff, enabledOff, enabledSentOff int64, srvPipe int, unauthOff, reauthOff, utf8Off, utf8SentOff int64) {
 	stream := cli.Written()
 	// literal decisions in stream order tell the splitter which synchronising literals were followed by a payload
 	var syncEvents []srvLitEvent
@@ -332,6 +356,18 @@ func c18Judge(r *R, cli *simnet.Conn, srv *scriptSrv, pre, post c18caps, authOff
 			} else {
 				r.Nontrivial = true
 				r.Probe("sync_literal")
+			}
+		}
+		// RFC 6855 section 3: once UTF8=ACCEPT is enabled, SEARCH must not carry a charset specification
+		if utf8Off >= 0 && int64(ln.Start) >= utf8Off && !(unauthOff >= 0 && int64(ln.Start) >= unauthOff) && writtenAt(int64(ln.Start)+1) > deliveredAt(utf8SentOff) {
+			pc := ParseCmd(ln)
+			if strings.HasSuffix(pc.Name, "SEARCH") {
+				r.Probe("search_with_utf8_accept")
+				for i, a := range pc.Args {
+					if a.Kind == 'a' && strings.EqualFold(a.S, "CHARSET") && i < 3 {
+						r.Violate("charset-after-utf8-accept", "", "UTF8=ACCEPT is enabled (and the client had received the ENABLED response) but the client sent a SEARCH with a charset specification: %q", clipStr(string(ln.Raw), 160))
+					}
+				}
 			}
 		}
 		// quoted strings: 8-bit only when permitted; CR/LF/NUL never
